@@ -31,28 +31,36 @@ Record bstate := {
   b_code : N;
   b_null : bool;
   b_len : N;
-  b_alloc : N               (* largest make([]byte, n) requested so far *)
+  b_alloc : N;              (* largest make([]byte, n) requested so far *)
+  b_avail : N;              (* = length b_in, maintained incrementally *)
+  b_fuel : nat              (* recursion budget fixed at creation: input length + 2 *)
 }.
 
 Definition b_init (inp : list N) (ioerr : bool) : bstate :=
   {| b_in := inp; b_ioerr := ioerr; b_pos := 0; b_state := bssBeforeValue; b_stack := [];
-     b_code := bcNone; b_null := false; b_len := 0; b_alloc := 0 |}.
+     b_code := bcNone; b_null := false; b_len := 0; b_alloc := 0;
+     b_avail := N.of_nat (length inp); b_fuel := S (S (length inp)) |}.
 
-Definition upd_in (b : bstate) (inp : list N) (pos : N) : bstate :=
+Definition upd_in (b : bstate) (inp : list N) (pos : N) (avail : N) : bstate :=
   {| b_in := inp; b_ioerr := b_ioerr b; b_pos := pos; b_state := b_state b; b_stack := b_stack b;
-     b_code := b_code b; b_null := b_null b; b_len := b_len b; b_alloc := b_alloc b |}.
+     b_code := b_code b; b_null := b_null b; b_len := b_len b; b_alloc := b_alloc b;
+     b_avail := avail; b_fuel := b_fuel b |}.
 Definition upd_state (b : bstate) (st : N) : bstate :=
   {| b_in := b_in b; b_ioerr := b_ioerr b; b_pos := b_pos b; b_state := st; b_stack := b_stack b;
-     b_code := b_code b; b_null := b_null b; b_len := b_len b; b_alloc := b_alloc b |}.
+     b_code := b_code b; b_null := b_null b; b_len := b_len b; b_alloc := b_alloc b;
+     b_avail := b_avail b; b_fuel := b_fuel b |}.
 Definition upd_stack (b : bstate) (st : list (N * N)) : bstate :=
   {| b_in := b_in b; b_ioerr := b_ioerr b; b_pos := b_pos b; b_state := b_state b; b_stack := st;
-     b_code := b_code b; b_null := b_null b; b_len := b_len b; b_alloc := b_alloc b |}.
+     b_code := b_code b; b_null := b_null b; b_len := b_len b; b_alloc := b_alloc b;
+     b_avail := b_avail b; b_fuel := b_fuel b |}.
 Definition upd_cur (b : bstate) (code : N) (null : bool) (len : N) : bstate :=
   {| b_in := b_in b; b_ioerr := b_ioerr b; b_pos := b_pos b; b_state := b_state b; b_stack := b_stack b;
-     b_code := code; b_null := null; b_len := len; b_alloc := b_alloc b |}.
+     b_code := code; b_null := null; b_len := len; b_alloc := b_alloc b;
+     b_avail := b_avail b; b_fuel := b_fuel b |}.
 Definition upd_alloc (b : bstate) (n : N) : bstate :=
   {| b_in := b_in b; b_ioerr := b_ioerr b; b_pos := b_pos b; b_state := b_state b; b_stack := b_stack b;
-     b_code := b_code b; b_null := b_null b; b_len := b_len b; b_alloc := N.max (b_alloc b) n |}.
+     b_code := b_code b; b_null := b_null b; b_len := b_len b; b_alloc := N.max (b_alloc b) n;
+     b_avail := b_avail b; b_fuel := b_fuel b |}.
 Definition b_clear (b : bstate) : bstate := upd_cur b bcNone false 0.
 
 (* every operation returns the new stream state together with its result, because a
@@ -67,8 +75,8 @@ Definition state_after_value (b : bstate) : N :=
 (* read(): Some c, or None at EOF; pos is incremented in every case *)
 Definition b_read (b : bstate) : bres (option N) :=
   match b_in b with
-  | c :: r => (upd_in b r (wrap64 (b_pos b + 1)), Ok (Some c))
-  | [] => let b' := upd_in b [] (wrap64 (b_pos b + 1)) in
+  | c :: r => (upd_in b r (wrap64 (b_pos b + 1)) (b_avail b - 1), Ok (Some c))
+  | [] => let b' := upd_in b [] (wrap64 (b_pos b + 1)) 0 in
           if b_ioerr b then (b', Err) else (b', Ok None)
   end.
 (* read1(): EOF is an error *)
@@ -93,23 +101,22 @@ Fixpoint split_at (n : nat) (l : list N) : list N * list N :=
 Definition read_chunk_size : N := 65536.
 Definition b_readN (b : bstate) (n : N) : bres (list N) :=
   if n =? 0 then (b, Ok []) else
-  let avail := N.of_nat (length (b_in b)) in
+  let avail := b_avail b in
   let b := upd_alloc b (N.min n (avail + read_chunk_size)) in
   if n <=? avail then
     let '(a, r) := split_at (N.to_nat n) (b_in b) in
-    (upd_in b r (wrap64 (b_pos b + n)), Ok a)
-  else (upd_in b [] (wrap64 (b_pos b + avail)), Err).
+    (upd_in b r (wrap64 (b_pos b + n)) (avail - n), Ok a)
+  else (upd_in b [] (wrap64 (b_pos b + avail)) 0, Err).
 
 (* skip(n): bufio.Discard(int(n)); running out of input is NOT an error here *)
 Definition b_skip (b : bstate) (n : N) : bres unit :=
   if two63 <=? n then (b, Err) else                      (* int(n) < 0: bufio.ErrNegativeCount *)
-  let avail := N.of_nat (length (b_in b)) in
+  let avail := b_avail b in
   if n <=? avail then
-    let '(_, r) := split_at (N.to_nat n) (b_in b) in
-    (upd_in b r (wrap64 (b_pos b + n)), Ok tt)
+    (upd_in b (skipn (N.to_nat n) (b_in b)) (wrap64 (b_pos b + n)) (avail - n), Ok tt)
   else
     (* fewer bytes than declared: UnexpectedEOFError (or the I/O failure) *)
-    (upd_in b [] (wrap64 (b_pos b + avail)), Err).
+    (upd_in b [] (wrap64 (b_pos b + avail)) 0, Err).
 
 (* peekAtOffset(k) *)
 Definition b_peek (b : bstate) (k : N) : res N :=
@@ -384,7 +391,7 @@ Definition b_validate_annotated (b : bstate) (remaining : N) : res unit :=
       let remaining := wrap64 (remaining + two64 - 1) in
       if (length =? 14) || ((code =? bcStruct) && (length =? 1)) then
         (* the peek loop runs until a byte with the stop bit; it is bounded by the input *)
-        match validate_len_loop (S (List.length (b_in b))) b 1 0 remaining with
+        match validate_len_loop (b_fuel b) b 1 0 remaining with
         | Ok (l, rem') => if l =? rem' then Ok tt else Err
         | Err => Err
         | Panic => Panic
@@ -401,7 +408,7 @@ Fixpoint annot_loop (fuel : nat) (b : bstate) (sid_ok : N -> bool) (left : N) (a
   match fuel with
   | O => (b, OutOfFuel)
   | S f =>
-    if left =? 0 then (b, Ok (rev acc)) else
+    if left =? 0 then (b, Ok (rev_append acc [])) else
     match b_read_varuint b left with
     | (b', Ok (id, idlen)) =>
       if sid_ok id then annot_loop f b' sid_ok (wrap64 (left + two64 - idlen)) (id :: acc)
@@ -419,7 +426,7 @@ Definition b_read_annotations (b : bstate) (sid_ok : N -> bool) : bres (list N) 
     let remaining := wrap64 (wrap64 (b_len b + two64 - llen) + two64 - alen) in
     if remaining =? 0 then (b1, Err) else
     (* every iteration consumes at least one byte of input or fails *)
-    match annot_loop (S (length (b_in b1))) b1 sid_ok alen [] with
+    match annot_loop (b_fuel b1) b1 sid_ok alen [] with
     | (b2, Ok ids) =>
       match b_validate_annotated b2 remaining with
       | Ok _ => (b_clear (upd_state b2 bssBeforeValue), Ok ids)
